@@ -287,6 +287,12 @@ impl Scenario for C18 {
                 if let (Some(o), Some(first)) = (&c.odd, extras.first_mut()) {
                     first.1 = o.clone();
                 }
+                if extras.len() >= 2 && (sel / 35) % 3 == 0 {
+                    // two keys that differ only in letter case
+                    let k0 = extras[0].0.clone();
+                    extras[1].0 = if k0.chars().any(|ch| ch.is_ascii_lowercase()) { k0.to_ascii_uppercase() } else { format!("{}x", k0.to_ascii_lowercase()) };
+                    obs.count("reach.extras_keys_differ_only_in_case");
+                }
                 let pre = format!("{mode}+extras={}", if n_extra >= 2 { ">=2".to_string() } else { n_extra.to_string() });
                 match mode {
                     "unknown" => {
@@ -329,7 +335,8 @@ impl Scenario for C18 {
             }
             "ParsedVcs" => {
                 use debian_control::vcs::ParsedVcs as PV;
-                let val = PV { repo_url: format!("https://{}/{}", a[2], a[3]), branch: if sel % 2 == 0 { Some(a[3].clone()) } else { None }, subpath: if (sel / 2) % 2 == 0 { Some(a[2].clone()) } else { None } };
+                let host = ["", "", "[2001:db8::1]", "[::1]:8080", "user@"][(sel / 4) % 5];
+                let val = PV { repo_url: if host.is_empty() { format!("https://{}/{}", a[2], a[3]) } else { format!("https://{}{}/{}", host, a[2], a[3]) }, branch: if sel % 2 == 0 { Some(a[3].clone()) } else { None }, subpath: if (sel / 2) % 2 == 0 { Some(a[2].clone()) } else { None } };
                 let pre = format!("{mode}+branch={}+subpath={}", val.branch.is_some(), val.subpath.is_some());
                 match mode {
                     "canonical" => canonical::<PV>(&c.ty, &val.to_string(), e, p!(PV), q!(PV), &pre),
@@ -411,10 +418,14 @@ impl Scenario for C18 {
             }
             "License" => {
                 use debian_copyright::License as L;
-                let val = match sel % 3 {
+                let val = match sel % 6 {
                     0 => L::Name(a[2].clone()),
                     1 => L::Text(format!("{}\n{}", a[2], a[3])),
-                    _ => L::Named(a[2].clone(), format!("{}\n.\n{}", a[3], a[2])),
+                    2 => L::Named(a[2].clone(), format!("{}\n.\n{}", a[3], a[2])),
+                    // degenerate but representable values
+                    3 => L::Named(a[2].clone(), String::new()),
+                    4 => L::Text(String::new()),
+                    _ => L::Named(a[2].clone(), a[3].clone()),
                 };
                 match mode {
                     "canonical" => canonical::<L>(&c.ty, &val.to_string(), e, p!(L), q!(L), mode),
